@@ -4,6 +4,7 @@ import (
 	"encoding/json"
 	"fmt"
 	"os"
+	"regexp"
 	"strings"
 	"sync/atomic"
 	"time"
@@ -119,10 +120,11 @@ type c03Divergence struct {
 }
 
 const c03BranchHeads = "branch-head-after-restart"
+var maxRepoRe = regexp.MustCompile(`"MaxRepoLabel":\d+`)
+var nextLabelRe = regexp.MustCompile(`\{"nextlabel":\d+\}`)
 
-func snapOpts() snap.Options {
-	return snap.Options{Volume: map[string][2]string{"ui4": {"96_64_32", "-32_0_0"}}}
-}
+const c03EmptyLabelmapMax = "empty-labelmap-maxlabel-jumps-on-restart"
+
 
 func checkC03(c *Ctx) int {
 	run := ev.NewRun("C03", c.Tier, "model_checking")
@@ -133,7 +135,7 @@ func checkC03(c *Ctx) int {
 	run.Set("tlc_model", "DvidPersist: every request as its program of in-memory steps and store writes; Crash between any two steps; Recover/CleanRestart; Act_C03_RestartIsStutter, Inv_C04_*, Inv_C12_CountersAhead")
 	nw := checkWriteConformance(c, run, "C03", pm.WriteTable)
 	histories := c.pick(8, 48)
-	length := c.pick(22, 40)
+	length := c.pick(40, 60)
 	var restarts, compared int64
 	kinds := map[string]bool{}
 	parallel(histories, 8, func(_, h int) {
@@ -147,16 +149,38 @@ func checkC03(c *Ctx) int {
 				continue
 			}
 			must(n.Idle(), "idle")
-			before, err := snap.Take(n, snapOpts())
+			// even histories restart after every operation; odd ones after random gaps, so that
+			// state built up over several operations in one process is compared with its rebuild
+			if h%2 == 1 && w.rng.Intn(4) != 0 && i < length-1 {
+				continue
+			}
+			before, err := snap.TakeCanon(n, w.snapOptions())
 			must(err, "snapshot before restart")
 			clean := (i+h)%2 == 0
 			must(n.Restart(clean), "restart")
 			atomic.AddInt64(&restarts, 1)
-			after, err := snap.Take(n, snapOpts())
+			after, err := snap.TakeCanon(n, w.snapOptions())
 			must(err, "snapshot after restart")
 			atomic.AddInt64(&compared, int64(len(before.Entries)))
 			run.Eval(fmt.Sprintf("h%d|%d|%s", h, i, kind))
 			d := snap.Diff(before, after)
+			if len(d) > 0 && run.KnownActive(c03EmptyLabelmapMax) {
+				// known finding: a labelmap instance restarted while it holds no stored repo-wide
+				// maximum gets 10000000000 in memory (not persisted), so its max / next label answers
+				// differ across this and later restarts.  Blank exactly those fields and compare again.
+				fix := func(key, b string) string {
+					if !strings.Contains(key, "data/la") && !strings.Contains(key, "/info") {
+						return b
+					}
+					b = maxRepoRe.ReplaceAllString(b, `"MaxRepoLabel":"*"`)
+					b = nextLabelRe.ReplaceAllString(b, `{"nextlabel":"*"}`)
+					return b
+				}
+				if d2 := snap.Diff(snap.Transform(before, fix), snap.Transform(after, fix)); len(d2) == 0 {
+					run.ReportKnown(c03EmptyLabelmapMax)
+					d = nil
+				}
+			}
 			if len(d) > 0 {
 				// known finding: only uuid:branch head addresses differ
 				onlyHeads := true
@@ -177,12 +201,12 @@ func checkC03(c *Ctx) int {
 				}
 			}
 			if h == 0 && i == 5 {
-				run.Sample(map[string]interface{}{"history_prefix": w.log, "restart": "after every operation, alternating clean stop / SIGKILL", "snapshot_entries": len(before.Entries)})
+				run.Sample(map[string]interface{}{"history_prefix": w.log, "restart": "after every operation (even histories) or after random gaps (odd histories), alternating clean stop / SIGKILL", "snapshot_entries": len(before.Entries)})
 			}
 		}
 		for _, op := range w.log {
 			kinds[op.Kind] = true
-			if os.Getenv("VCHECK_DEBUG") != "" && op.Kind == "tags" {
+			if os.Getenv("VCHECK_DEBUG") != "" && strings.HasPrefix(op.Kind, os.Getenv("VCHECK_DEBUG")) {
 				fmt.Println("DEBUG", w.describe(op), op.Body, op.Resp)
 			}
 		}
@@ -196,7 +220,7 @@ func checkC03(c *Ctx) int {
 	run.Set("snapshot_entries_compared", compared)
 	run.Set("operation_kinds", kl)
 	run.Set("write_sequences_conformant", nw)
-	run.Set("rule", "case = (seeded multi-datatype history, position): after every acknowledged operation the node is stopped (alternating clean stop and SIGKILL while idle), a new process opens the same stores, and the complete API snapshot (repos info, DAG, heads, flags, notes, logs, instances with settings/tags, every data read endpoint at every version) must equal the one taken before; the store-write sequence of every repo-level request is compared with the program DvidPersist.tla prescribes")
+	run.Set("rule", "case = (seeded multi-datatype history, position): after every acknowledged operation (or, in every second history, after random gaps of operations) the node is stopped (alternating clean stop and SIGKILL while idle), a new process opens the same stores, and the complete API snapshot (repos info, DAG, heads, flags, notes, logs, instances with settings/tags, every data read endpoint at every version) must equal the one taken before; the store-write sequence of every repo-level request is compared with the program DvidPersist.tla prescribes")
 	run.Assume = []string{"Badger durability across process kill (page cache survives)", "datatypes driven so far: keyvalue, roi, annotation, neuronjson, uint8blk (+labelmap in C08's restart pass)"}
 	fmt.Printf("C03: tlc %d states; %d histories x %d ops, %d restarts, %d snapshot entries compared in %.1fs; violations=%d known=%v\n",
 		pm.States, histories, length, restarts, compared, since(t0), run.Violations(), run.KnownSeen())
